@@ -337,6 +337,14 @@ fn intro_impl<T: ZooVal + Introspect>(name: &str, r: &mut Rng, sz: usize, ncmds:
     let x = T::gen(r, sz);
     let mut viol = Vec::new();
     let mut budget = 20000usize;
+    if r.below(3) == 0 {
+        // the value as a listed child of something (what is shown for it is then part of every result)
+        let pair = vec![x, T::gen(r, sz.min(4))];
+        let kids = crate::intro::walk(&pair, "", &mut budget, &mut viol);
+        let (req, reply, v2) = crate::intro::nav_case(&pair, &kids, r, ncmds, &format!("Vec2<{}>", name));
+        viol.extend(v2);
+        return (viol, req, reply, 20000 - budget);
+    }
     let kids = crate::intro::walk(&x, "", &mut budget, &mut viol);
     let (req, reply, v2) = crate::intro::nav_case(&x, &kids, r, ncmds, name);
     viol.extend(v2);
